@@ -49,7 +49,8 @@ type Backend struct {
 	W       *ecs.World
 	U       ecs.Unsafe
 	IDs     [comps.N]ecs.ID
-	H       []ecs.Entity // handle by serial (zero value = not bound yet)
+	Reg     [comps.N]bool // registered so far (IDs[c] is meaningless otherwise)
+	H       []ecs.Entity  // handle by serial (zero value = not bound yet)
 	Ser     map[ecs.Entity]int
 	Issued  map[ecs.Entity]bool // every handle issued since creation / last reset
 	maps    []Mapper
@@ -93,8 +94,11 @@ func NewBackend(name string, cfg Config, pol Policy) *Backend {
 	for i := 0; i < cfg.Filler; i++ {
 		ecs.TypeID(b.W, fillerType(i))
 	}
-	for _, c := range cfg.Perm {
-		b.IDs[c] = comps.Register(b.W, c)
+	for i, c := range cfg.Perm {
+		if i >= len(cfg.Perm)-cfg.Late {
+			break // registered when first used
+		}
+		b.register(c)
 	}
 	b.maps = make([]Mapper, len(MapInsts))
 	b.evT = [NumEv]ecs.EventType{ecs.OnCreateEntity, ecs.OnRemoveEntity, ecs.OnAddComponents, ecs.OnRemoveComponents, ecs.OnSetComponents, ecs.OnAddRelations, ecs.OnRemoveRelations}
@@ -115,6 +119,14 @@ func fillerType(i int) reflect.Type {
 		fillerTypes = append(fillerTypes, reflect.ArrayOf(len(fillerTypes)+1, reflect.TypeFor[int8]()))
 	}
 	return fillerTypes[i]
+}
+
+// register registers universe type c (idempotent).
+func (b *Backend) register(c int) {
+	if !b.Reg[c] {
+		b.IDs[c] = comps.Register(b.W, c)
+		b.Reg[c] = true
+	}
 }
 
 func (b *Backend) tr(format string, a ...any) {
@@ -149,6 +161,7 @@ func (b *Backend) Exchanger(i int, rem []int) Exchanger {
 func (b *Backend) ids(list []int) []ecs.ID {
 	out := make([]ecs.ID, len(list))
 	for i, c := range list {
+		b.register(c)
 		out[i] = b.IDs[c]
 	}
 	return out
@@ -269,7 +282,7 @@ func (b *Backend) compareEntity(sigp string, s int, e *Ent, where string) {
 		id := ids.Get(i)
 		found := false
 		for c := 0; c < comps.N; c++ {
-			if b.IDs[c] == id {
+			if b.Reg[c] && b.IDs[c] == id {
 				if got&(1<<uint(c)) != 0 {
 					fail(sigp+"|ids", "%s %s: entity #%d lists component %s twice", b.Name, where, s, comps.All[c].Name)
 				}
@@ -286,6 +299,12 @@ func (b *Backend) compareEntity(sigp string, s int, e *Ent, where string) {
 	}
 	for c := 0; c < comps.N; c++ {
 		has := e.Mask&(1<<uint(c)) != 0
+		if !b.Reg[c] {
+			if has {
+				fail(sigp+"|unregistered", "%s %s: model entity #%d has component %s which was never registered", b.Name, where, s, comps.All[c].Name)
+			}
+			continue
+		}
 		if b.U.Has(h, b.IDs[c]) != has {
 			fail(sigp+"|has", "%s %s: entity #%d Has(%s)=%v, model %v", b.Name, where, s, comps.All[c].Name, !has, has)
 		}
@@ -352,6 +371,9 @@ func (b *Backend) CheckWorld(m *Model, sigp string, where string, deep bool) {
 func (b *Backend) compareTyped(sigp string, s int, e *Ent, where string) {
 	h := b.H[s]
 	for c := 0; c < comps.N; c++ {
+		if !b.Reg[c] {
+			continue
+		}
 		mp := b.Mapper(c) // Map[T]
 		has := e.Mask&(1<<uint(c)) != 0
 		p := mp.Get(h)[0]
@@ -374,7 +396,9 @@ func (b *Backend) compareTyped(sigp string, s int, e *Ent, where string) {
 	}
 	// one multi-arity mapper chosen by serial
 	i := 2*comps.N + (s*7+len(where))%(len(MapInsts)-2*comps.N)
-	b.checkMapperGet(sigp, i, s, e, where)
+	if b.regMask()&MapInsts[i].Mask == MapInsts[i].Mask {
+		b.checkMapperGet(sigp, i, s, e, where)
+	}
 }
 
 func (b *Backend) checkMapperGet(sigp string, i int, s int, e *Ent, where string) {
@@ -638,3 +662,13 @@ func specStr(f *FilterSpec) string {
 }
 
 var _ = unsafe.Pointer(nil)
+
+func (b *Backend) regMask() uint16 {
+	var m uint16
+	for c := 0; c < comps.N; c++ {
+		if b.Reg[c] {
+			m |= 1 << uint(c)
+		}
+	}
+	return m
+}
